@@ -114,7 +114,7 @@ def _empty(*a, **k):
     w, r = simworld.current()
     if w is not None and w.sched.get('poison') and _from_code_under_test():
         poison_array(arr)
-        w.fault_counts['poison'] = w.fault_counts.get('poison', 0) + 1
+        w.fault_counts['poisoned-allocations'] = w.fault_counts.get('poisoned-allocations', 0) + 1
     return arr
 
 
@@ -123,7 +123,7 @@ def _empty_like(*a, **k):
     w, r = simworld.current()
     if w is not None and w.sched.get('poison') and _from_code_under_test():
         poison_array(arr)
-        w.fault_counts['poison'] = w.fault_counts.get('poison', 0) + 1
+        w.fault_counts['poisoned-allocations'] = w.fault_counts.get('poisoned-allocations', 0) + 1
     return arr
 
 
@@ -154,7 +154,8 @@ class _SharedFile:
         self.real = real
         self.name = name
         self.members = members
-        self.writes = []        # (rank, dataset name, slices, copy of data)
+        self.owners = {}        # dataset name -> array of (last writing rank + 1)
+        self.conflict = None
         self.closed = False
 
 
@@ -199,6 +200,10 @@ class SimDataset:
         return SimAttrs(self)
 
     @property
+    def collective(self):
+        return _NoOpContext()        # collective transfer mode: a hint, same data
+
+    @property
     def shape(self):
         return self._real().shape
 
@@ -211,8 +216,25 @@ class SimDataset:
         w, r = f._world, f._rank
         w.preempt(r, 'h5write', (os.path.basename(f._shared.name), self._name, repr(key)))
         ds = self._real()
+        sh = f._shared
+        owner = sh.owners.get(self._name)
+        if owner is None:
+            owner = sh.owners[self._name] = np.zeros(ds.shape, dtype=np.int32)
+        try:
+            prev_owner = np.array(owner[key])
+            old = np.array(ds[key])
+        except Exception:   # noqa  (exotic selection: skip the conflict bookkeeping)
+            prev_owner = None
         ds[key] = value
-        f._shared.writes.append((r, self._name, key, np.array(ds[key])))
+        if prev_owner is not None:
+            new = np.array(ds[key])
+            other = (prev_owner != 0) & (prev_owner != r + 1)
+            # parallel HDF5 leaves overlapping independent writes of *different* ranks with
+            # different data undefined; a rank rewriting its own region is fine
+            if other.any() and new.shape == old.shape and (new[other].tobytes() != old[other].tobytes()):
+                sh.conflict = dict(dataset=self._name, rank=r, other=int(prev_owner[other].flat[0]) - 1,
+                                   region=repr(key))
+            owner[key] = r + 1
 
     def __getitem__(self, key):
         return self._real()[key]
@@ -288,16 +310,8 @@ class SimFile:
 
         def complete(p):
             bad = None
-            if mode != 'r':
-                # parallel HDF5 leaves overlapping independent writes with
-                # different data undefined: every rank's block must be in the file
-                for (rk, dname, key, data) in sh.writes:
-                    now = np.array(sh.real[dname][key])
-                    if now.shape != data.shape or now.tobytes() != data.tobytes():
-                        bad = Violation('h5-conflicting-writes', dict(
-                            file=os.path.basename(sh.name), dataset=dname, rank=rk,
-                            region=repr(key)))
-                        break
+            if mode != 'r' and sh.conflict is not None:
+                bad = Violation('h5-conflicting-writes', dict(file=os.path.basename(sh.name), **sh.conflict))
             sh.real.close()
             sh.closed = True
             if mode != 'r':
@@ -312,6 +326,27 @@ class SimFile:
 
     def __exit__(self, *a):
         self.close()
+
+    @property
+    def filename(self):
+        return self._shared.name
+
+    @property
+    def mode(self):
+        return self._mode
+
+    def __getattr__(self, name):
+        if name.startswith('__'):
+            raise AttributeError(name)
+        raise simworld.SimUnsupported('emulated parallel h5py.File has no %s' % name)
+
+
+class _NoOpContext:
+    def __enter__(self):
+        return self
+
+    def __exit__(self, *a):
+        return False
 
 
 def _h5File(name, mode='r', *a, **k):
@@ -372,6 +407,10 @@ def install(repo=None):
     pf = os.path.abspath(pygyro.__file__)
     assert pf.startswith(repo + os.sep), 'pygyro imported from %s, expected below %s' % (pf, repo)
     _installed = True
+
+
+def _real_listdir(path):
+    return os.listdir(path)
 
 
 def real_h5File(*a, **k):
